@@ -20,7 +20,7 @@ RULE = ("reference X in EVERY position {list item, operand, $deref field value, 
         "the 1..3 macros in play (X before / after the macro whose body mentions it, an unrelated used / unused macro first "
         "/ last) x EVERY split of the definitions between the rule file and an extra macro file; plus macro definitions "
         "whose own name lacks '@'. At least one definition is always supplied (property scope). Oracle: compilation raises "
-        "and the message names the surviving reference, or the produced regex contains no '@'. Non-trivial = cases where "
+        "and the message names the surviving reference, or the produced regex contains no '@' (also when the same Yaml2Regex object is asked a second time). Non-trivial = cases where "
         "the reference is undefined or defined before its user (must be reported).")
 ASSUMPTIONS = ["rule names contain no '@' except macro references, so an '@' in the regex is a surviving reference"]
 LEVEL_TEXT = ("All positions x statuses x orders x splits of the stated grammar compiled by the real code. Exhaustive within bounds.")
@@ -125,9 +125,15 @@ def run_one(h, pat, rf, ef):
     p = h.write("c19.yaml", yaml.safe_dump(doc, sort_keys=False))
     files = [h.write("c19m.yaml", yaml.safe_dump({"macros": copy.deepcopy(ef)}, sort_keys=False))] if ef else None
     try:
-        return "ok", Yaml2Regex(p, macros_from_terminal=files).produce_regex(), doc
+        y = Yaml2Regex(p, macros_from_terminal=files)
+        t1 = y.produce_regex()
     except Exception as e:  # noqa
         return "raise", f"{type(e).__name__}: {e}", doc
+    try:        # the same object asked again: what it produces the second time must not contain a reference either
+        t2 = y.produce_regex()
+    except Exception:  # noqa
+        t2 = t1
+    return "ok", (t1 if "@" in t1 else t2), doc
 
 
 def judge(pname, kind, out):
